@@ -4,7 +4,9 @@ Refuting events (observed at the client boundary + hooked exception sites + RAIS
 parse/update failing (showMessage "...failed..."), documentSymbol / diagnostics failing on the produced index,
 RecursionError raised in fortls frames (even when swallowed), CPU time over budget, non-termination (watchdog).
 """
+import json
 import os
+import re
 import time
 
 from vf.core import Result
@@ -46,12 +48,14 @@ def gen_texts(ctx, i, rng, n):
         for tag, t in G.stressors(rng):
             out.append(("stress:" + tag, t, None))
         return out
-    for _ in range(n):
-        if rng.random() < 0.3:
-            # near-miss statements: one token of a statement template deleted, doubled, swapped or replaced (51 500 single mutations)
-            tag, text, ext = G.stmt_mutation_text(rng)
-            out.append(("stmt-mutation:" + tag, text, ext))
-            continue
+    # near-miss statements: one token of a statement template deleted, doubled, swapped or replaced; the list of all single mutations
+    # (51 500) is cut into one slice per case, so that a run of all cases covers it completely
+    allm = G.all_stmt_mutations()
+    ncases = plan(ctx.tier)["ncases"] - 1
+    per = -(-len(allm) // ncases)
+    for slot, k, tag, st in allm[(i - 1) * per:i * per]:
+        out.append((f"stmt-mutation:{slot}{k}:{tag.split(':')[0]}", G.wrap_stmt(slot, st, alone=rng.random() < 0.15), ".F90" if slot == "PP" else rng.choice([".f90", ".f90", ".F90"])))
+    for _ in range(max(8, n - per)):
         r = rng.random()
         p, t = rng.choice(samples)
         ext = os.path.splitext(p)[1]
@@ -178,9 +182,102 @@ def run_case(ctx, i, rng):
                 res.count("typed_characters", len(text))
                 judge(res, allev, exc, recmon, dt / max(1, len(text)) , text, tname, cls, args, "typing")
                 query(res, srv, ws, tname, text, cls, args, exc, recmon, "typing")
+        # route 4: edits inside a line of an open document (what typing produces): afterwards the index must be the index of the buffer,
+        # i.e. equal to what a from-scratch parse of the same text gives -- not the previous version's symbols
+        if "--incremental_sync" in args:
+            base = [m for m in meta if isinstance(m[1], str) and m[0].startswith(("stmt-mutation:", "line-prefix", "mutation")) and 0 < len(m[1]) < 6000][:4]
+            for cls, text, name in base:
+                ename = "e_" + name
+                ws.write(ename, text)
+                euri, epath = ws.uri(ename), ws.path(ename)
+                srv.did_open(euri)
+                cur = srv.lines_of(epath)
+                if cur is None:
+                    continue
+                cur = list(cur)
+                edits = []
+                for _ in range(rng.randint(1, 6)):
+                    ln = rng.randrange(len(cur))
+                    L = cur[ln]
+                    op = rng.randrange(6)
+                    if op == 0:      # comment the line out / in
+                        a, b, t = (0, 1, "") if L.startswith("!") else (len(L) - len(L.lstrip()), len(L) - len(L.lstrip()), "!")
+                    elif op == 1:    # delete a word
+                        ms = list(re.finditer(r"[A-Za-z_]\w*", L))
+                        if not ms:
+                            continue
+                        m_ = rng.choice(ms)
+                        a, b, t = m_.start(), m_.end(), ""
+                    elif op == 2:    # insert a character
+                        a = b = rng.randint(0, len(L))
+                        t = rng.choice(list("!&'\"(),=:;% ") + ["end ", "integer :: ", "contains", "x"])
+                    elif op == 3:    # cut the tail
+                        a, b, t = rng.randint(0, len(L)), len(L), ""
+                    elif op == 4:    # replace a word by another word of the document
+                        ms = list(re.finditer(r"[A-Za-z_]\w*", L))
+                        words = re.findall(r"[A-Za-z_]\w*", text) or ["x"]
+                        if not ms:
+                            continue
+                        m_ = rng.choice(ms)
+                        a, b, t = m_.start(), m_.end(), rng.choice(words)
+                    else:            # empty the line
+                        a, b, t = 0, len(L), ""
+                    ch = {"range": {"start": {"line": ln, "character": a}, "end": {"line": ln, "character": b}}, "text": t}
+                    edits.append(ch)
+                    cur[ln] = L[:a] + t + L[b:]
+                    ctx.mark({"route": "inline-edit", "file": ename, "text": text, "edits": edits, "args": args})
+                    exc.take()
+                    ev = srv.did_change(euri, [ch])
+                    res.count("evaluations")
+                    res.count("route_inline_edit")
+                    judge(res, ev, exc, recmon, 0.0, text, ename, cls, args, "inline-edit")
+                    got = srv.lines_of(epath)
+                    fobj = srv.ls.workspace.get(epath)
+                    if got != cur or fobj is None:
+                        break  # buffer fidelity is C02's business
+                    if not compare_index(res, srv, epath, cur, args, {"route": "inline-edit", "file": ename, "text": text, "edits": list(edits), "args": args}):
+                        break
         if i % 40 == 1:
             res.sample({"class": meta[0][0], "file": meta[0][2], "text": str(meta[0][1])[:300]}, limit=1)
     return res
+
+
+def compare_index(res, srv, epath, cur, args, wit):
+    """the live index of the file against a from-scratch parse of the buffer; False = stop editing this document"""
+    from fortls.parsers.internal.parser import FortranFile
+    fobj = srv.ls.workspace.get(epath)
+    try:
+        fresh = FortranFile(epath, srv.ls.pp_suffixes)
+        fresh.set_contents(list(cur), detect_format=False)
+        fresh.fixed = fobj.fixed  # source form is not re-detected on in-line edits; that is not what this monitor is about
+        fa = fresh.parse(pp_defs=dict(json.loads(args[1])) if args[:1] == ["--pp_defs"] else {}, include_dirs=set(srv.ls.include_dirs))
+    except Exception:
+        return False  # a text that cannot be parsed from scratch either is reported by the other routes
+    d_live, d_fresh = ast_dump(fobj.ast), ast_dump(fa)
+    if d_live != d_fresh:
+        only_live = [x for x in d_live if x not in d_fresh][:3]
+        only_fresh = [x for x in d_fresh if x not in d_live][:3]
+        res.violation("inline-edit:index-is-not-the-index-of-the-buffer",
+                      f"after {len(wit['edits'])} in-line edit(s) (last {wit['edits'][-1]}) the server's index differs from a from-scratch index of its own buffer: only in the server's {only_live}; only from scratch {only_fresh}", wit)
+        return False
+    return True
+
+
+def ast_dump(ast):
+    """what the index of one file says: scopes with their extent, the entities declared in each and the USE statements"""
+    out = []
+
+    def ty(o):
+        t = o.get_type(no_link=True)
+        return "proc" if t in (-1, 2, 3) else t  # a MODULE PROCEDURE body becomes a subroutine or function when it is linked to its interface
+
+    for sc in ast.scope_list:
+        try:
+            kids = tuple(sorted((c.name.lower(), ty(c), c.sline) for c in sc.children))
+        except Exception:
+            kids = ("?",)
+        out.append((sc.FQSN, ty(sc), sc.sline, sc.eline, kids, tuple(sorted((str(u.mod_name), u.line_number) for u in sc.use))))
+    return sorted(out, key=str)
 
 
 def judge(res, events, exc, recmon, dt, text, name, cls, args, route):
@@ -266,6 +363,19 @@ def replay(ctx, w):
             for n, t in files.items():
                 ws.write(n, t)
         srv.initialize(ws.root)
+        if w.get("route") == "inline-edit":
+            ws.write(w["file"], w["text"])
+            srv.did_open(ws.uri(w["file"]))
+            cur = list(srv.lines_of(ws.path(w["file"])))
+            done = []
+            for ch in w["edits"]:
+                ln, a, b = ch["range"]["start"]["line"], ch["range"]["start"]["character"], ch["range"]["end"]["character"]
+                cur[ln] = cur[ln][:a] + ch["text"] + cur[ln][b:]
+                done.append(ch)
+                srv.did_change(ws.uri(w["file"]), [ch])
+                if srv.lines_of(ws.path(w["file"])) != cur or not compare_index(res, srv, ws.path(w["file"]), cur, args, dict(w, edits=done)):
+                    break
+            return res
         for e in srv.conn.out:
             if e[0] == "notif" and e[1] == "window/showMessage" and any(x in str(e[2]) for x in FAIL_WORDS):
                 res.violation("replayed", str(e[2])[:300], w)
